@@ -379,3 +379,77 @@ Example C13_ex_machine :
      ONew (Err (DGE "")); ONew (Ok (RNum (default_numeric_tpl true) [5] true, 1)); ODraw 1 1; ODraw 0 1]
   = map Ok [VNum 601010; VNum 712010; VNum 58891013; VNum 1063010].
 Proof. vm_compute. reflexivity. Qed.
+
+(* ---------------------------------------------------------------- one generator, several names (round 5)
+
+   A recipe gets at a generator through names: the nickname and the table name of the (just_once) row that
+   holds it in a field, `reference:` fields, variables holding references, the parent row of a friend ...
+   [names_keys c0 prog] are the (generator, context, index) keys of all draws of a program over names
+   (constructor calls bound to names, aliases, draws through names, names going out of scope, runs chained by
+   continuations or started afresh), compiled to the process machine.  [n_continue] is what a continuation does
+   to the store of names: every generator that some name denotes is built anew exactly once and all its names
+   move to the new one (in the code: one YAML anchor per Python object in the continuation file). *)
+
+(* A continuation keeps the sharing: two names denote one generator afterwards exactly when they did before, and
+   what they denote afterwards was made by the continuation (its number lies above every earlier generator). *)
+Theorem C13_continuation_keeps_sharing :
+  forall st a b ga gb,
+    st_lookup (ns_store st) a = Some ga -> st_lookup (ns_store st) b = Some gb ->
+    exists ga' gb',
+      st_lookup (ns_store (fst (n_continue st))) a = Some ga' /\
+      st_lookup (ns_store (fst (n_continue st))) b = Some gb' /\
+      (ga = gb <-> ga' = gb') /\
+      (length (ns_made st) <= ga')%nat /\ (length (ns_made st) <= gb')%nat.
+Proof. exact names_continue_keeps_sharing. Qed.
+Print Assumptions C13_continuation_keeps_sharing.
+
+(* Whatever the names, aliases and continuations: no (context, index) pair is used twice. *)
+Theorem C13_names_keys_fresh :
+  forall c0 prog,
+    NoDup (names_keys c0 prog) /\
+    NoDup (map (fun k : rspec * Z * Z => (snd (fst k), snd k)) (names_keys c0 prog)).
+Proof. exact names_keys_NoDup. Qed.
+Print Assumptions C13_names_keys_fresh.
+
+(* Two draws of a program over names that land on the same generator (same constructor arguments, same context
+   number) — through whatever names, template with or without `context`, numeric or alphabetic over a
+   duplicate-free alphabet — give the same value only if they are the same draw. *)
+Theorem C13_names_one_generator_never_repeats :
+  forall (mask : Z -> Z -> Z) (nbits bpc : Z -> Z) c0 prog p q r c i i' v,
+    nth_error (names_keys c0 prog) p = Some (r, c, i) ->
+    nth_error (names_keys c0 prog) q = Some (r, c, i') ->
+    comparable r r -> In PIndex (spec_tpl r) ->
+    rvalue mask nbits bpc r c i = Ok v -> rvalue mask nbits bpc r c i' = Ok v -> p = q.
+Proof. exact names_values_distinct. Qed.
+Print Assumptions C13_names_one_generator_never_repeats.
+
+(* non-vacuity.  Template "pid,index" (no context), pid 5; name 0 = the nickname, name 1 = the table name.
+   Run 1 draws through both names, the continuation rebuilds the ONE generator (context 2, index from 1 again),
+   run 2 draws through both names: indexes 1, 2, 3 of the same generator. *)
+Example C13_ex_names :
+  let sp := SNum [112; 105; 100; 44; 105; 110; 100; 101; 120] [5] 1 true in
+  map (fun k : rspec * Z * Z => (snd (fst k), snd k))
+      (names_keys 1 [NNew 0 sp; NAlias 1 0; NDraw 0; NDraw 1; NContinue; NDraw 0; NDraw 1; NDraw 0])
+  = [(1, 1); (1, 2); (2, 1); (2, 2); (2, 3)].
+Proof. vm_compute. reflexivity. Qed.
+
+(* ... and why the sharing matters for a template without `context`: were the two names given a generator
+   each (as when the continuation file spells every occurrence out), both would start at index 1 and — the
+   context number not being part of the id — hand out the same id. *)
+Example C13_ex_names_unshared :
+  let sp := SNum [112; 105; 100; 44; 105; 110; 100; 101; 120] [5] 1 true in
+  map (fun k : rspec * Z * Z => (snd (fst k), snd k))
+      (names_keys 1 [NNew 0 sp; NAlias 1 0; NDraw 0; NDraw 1; NFresh; NNew 0 sp; NNew 1 sp; NDraw 0; NDraw 1])
+  = [(1, 1); (1, 2); (2, 1); (3, 1)] /\
+  num_value (fun k n => k * 37 + n) (fun n => Z.log2 n + 1) [PPid; PIndex] [5] 2 1 true =
+  num_value (fun k n => k * 37 + n) (fun n => Z.log2 n + 1) [PPid; PIndex] [5] 3 1 true.
+Proof. split; vm_compute; reflexivity. Qed.
+
+(* the store after a continuation: names 0 and 1 shared generator 0 and share generator 3 afterwards; name 7
+   had generator 1 and has generator 2 (the order in which the continuation rebuilds the generators is not
+   compared with the implementation) *)
+Example C13_ex_continue_store :
+  ns_store (fst (n_continue (mkNstate [(0, 0); (7, 1); (1, 0)]%nat
+                                      [(RNum [PIndex] [] true, 1); (RNum [PContext; PIndex] [] true, 1)])))
+  = [(0, 3); (7, 2); (1, 3)]%nat.
+Proof. vm_compute. reflexivity. Qed.
